@@ -156,9 +156,9 @@ class PureFockState(BaseFockState):
 
         index = get_index_in_fock_space(occupation_number)
 
-        return self._np.real(
-            self.state_vector[index].conjugate() * self.state_vector[index]
-        )
+        amplitude = self.state_vector[index]
+
+        return self._np.real(self._np.conj(amplitude) * amplitude)
 
     def get_particle_detection_probability_on_modes(
         self,
